@@ -16,6 +16,8 @@ Classes ==
     << <<>>, <<1>>, <<2>>, SubN(P, <<1>>), SubN(P, <<2>>), HalfN(SubN(P, <<1>>)), HalfN(AddN(P, <<1>>)),
        SubN(Pow2N(32), <<1>>), Pow2N(32), AddN(Pow2N(32), <<1>>), SubN(Pow2N(62), <<1>>), Pow2N(62), Pow2N(63), SubN(Pow2N(63), <<1>>),
        P, AddN(P, <<1>>), SubN(Pow2N(Word), <<1>>), SubN(Pow2N(Word), Pow2N(32)), FromInt(65537), FromInt(1234567) >>
+    \* the 128-bit field multiplies 64-bit limbs: operands at the limb boundary
+    \o (IF Word = 128 THEN << Pow2N(64), AddN(Pow2N(64), <<1>>), SubN(Pow2N(64), <<1>>), AddN(Pow2N(96), <<1>>), SubN(Pow2N(127), <<1>>) >> ELSE << >>)
 NC == Len(Classes)
 Pad(v) == ToBytes(v, Word \div 8)
 
